@@ -23,15 +23,16 @@
     R  `op reach`: every live id ∈ reachSet of the exported layer-0 graph from the entry
   A failing predicate is a known finding only if its trigger holds AND the model
   reproduces what the implementation did:
-    D2-hnsw-entry-removed      trigger: the entry point was soft-deleted at some add /
-                               search / reach since the index was last empty
     D3-hnsw-prune-disconnects  trigger: the index held more than 2M+1 vertices at some
                                time since it was last empty (nearest-M pruning happened)
-    D21-hnsw-removal-disconnects trigger: a removal succeeded and the index held more than
-                               efConstruction vertices at some time since it was last empty
-                               (so the layer-0 graph is not complete and removed vertices,
-                               which are never traversed, can be cut vertices)
-  (precedence D2, D3, D21: the first trigger that holds names the finding)
+    D21-hnsw-removal-disconnects trigger: a Flush dropped a vertex and the index held more
+                               than efConstruction vertices at some time since it was last
+                               empty (the layer-0 graph is not complete and Flush drops the
+                               edges of removed cut vertices without reconnecting)
+  (precedence D3, D21: the first trigger that holds names the finding).
+  D2 (soft-deleted entry point never seeded / new vertices isolated) is fixed by f6a780e +
+  f98dc7f: an empty answer while a live vertex exists is a SPECFAIL again unless one of the
+  triggers above explains it.
 -/
 import Comet.Driver.Proto
 import Comet.Driver.Flat
@@ -49,7 +50,8 @@ structure St where
   everPeak : Nat := 0       -- residents: maximum since the index was last empty
   over : Bool := false      -- everPeak > 2M+1
   removed : Bool := false   -- a removal succeeded since the index was last empty
-  entryDead : Bool := false
+  flushDropped : Bool := false -- a Flush dropped a vertex since the index was last empty
+  entryDead : Bool := false -- statistics only: the entry point was soft-deleted at some add / search
 
 def init (ps : List String) : Option St :=
   match ps with
@@ -163,7 +165,7 @@ def parseNode (t : String) : Option (Id × Nat × Bool × List (List Id)) :=
 
 /-! ### reachability on the exported graph (verified checker `HNSW.reachSet`) -/
 
-abbrev succ0 (s : State Vec) (i : Id) : List Id := liveSucc s i
+abbrev succ0 (s : State Vec) (i : Id) : List Id := nbrsAt s 0 i
 
 def edgeCount0 (s : State Vec) : Nat :=
   s.nodes.keys.foldl (fun c i => c + (succ0 s i).length) 0
@@ -171,7 +173,7 @@ def edgeCount0 (s : State Vec) : Nat :=
 /-- the live ids that are NOT reachable from the entry point through non-deleted
     vertices of layer 0; `none` = fuel exhausted (never happens: fuel = |V|+|E|+2) -/
 def unreachable (s : State Vec) (liveIds : List Id) : Option (List Id) :=
-  if s.nodes.count == 0 || isDeleted s s.entry then some liveIds else
+  if s.nodes.count == 0 then some liveIds else
   match reachSet (succ0 s) (s.nodes.count + edgeCount0 s + 2) s.entry with
   | none => none
   | some r =>
@@ -187,7 +189,7 @@ def residents (s : State Vec) : Nat := s.nodes.count
 /-- bookkeeping shared by all ops: the sticky triggers and the resident peak -/
 def track (st : St) : St :=
   let n := residents st.mirror
-  if n == 0 then { st with peak := 0, everPeak := 0, over := false, entryDead := false, removed := false }
+  if n == 0 then { st with peak := 0, everPeak := 0, over := false, entryDead := false, removed := false, flushDropped := false }
   else { st with peak := Nat.max st.peak n, everPeak := Nat.max st.everPeak n,
                  over := st.over || decide (n > 2 * st.mirror.M + 1) }
 
@@ -195,13 +197,12 @@ def track (st : St) : St :=
 def lowEf (st : St) : Bool := st.everPeak > st.mirror.efC
 
 def noteEntry (st : St) : St :=
-  if residents st.mirror > 0 && isDeleted st.mirror st.mirror.entry then { st with entryDead := true } else st
+  { st with entryDead := residents st.mirror > 0 && isDeleted st.mirror st.mirror.entry }
 
 def knownOr (st : St) (agree : Bool) (what : String) : String :=
-  if st.entryDead && agree then s!"KNOWN D2-hnsw-entry-removed {what}"
-  else if st.over && agree then s!"KNOWN D3-hnsw-prune-disconnects {what}"
-  else if st.removed && lowEf st && agree then s!"KNOWN D21-hnsw-removal-disconnects {what}"
-  else s!"SPECFAIL {what} entryDead={st.entryDead} over={st.over} removed={st.removed} lowEf={lowEf st} modelAgrees={agree}"
+  if st.over && agree then s!"KNOWN D3-hnsw-prune-disconnects {what}"
+  else if st.flushDropped && lowEf st && agree then s!"KNOWN D21-hnsw-removal-disconnects {what}"
+  else s!"SPECFAIL {what} over={st.over} flushDropped={st.flushDropped} lowEf={lowEf st} modelAgrees={agree}"
 
 def flag (b : Bool) : Nat := if b then 1 else 0
 
@@ -221,6 +222,9 @@ def op (st : St) (toks : List String) : St × String :=
       -- that flush elected is the reported one (0 when nothing was live)
       let pick : Id := if (liveIds st.model).isEmpty then 0 else ent
       let accepted := match res with | "ok" :: _ => true | _ => false
+      -- … and so is a soft-deleted entry point (fix f98dc7f)
+      let flushes := tomb || (residents st.mirror > 0 && isDeleted st.mirror st.mirror.entry)
+      let tomb := flushes
       if tomb && accepted && !(flushChoices st.model).contains pick then
         (st, s!"DIFF readd-flush-entry impl={pick} allowed={flushChoices st.model}") else
       match HNSW.add m st.model id v level pick with
@@ -243,17 +247,17 @@ def op (st : St) (toks : List String) : St × String :=
             let same := if tomb then sameGraph model' mirror' else sameAt model' mirror' touched
             let fin (st : St) : St :=
               let st := track st
-              if tomb then { st with peak := residents st.mirror } else st
+              if tomb then { st with peak := residents st.mirror, flushDropped := true } else st
             if same then
               (fin { st with model := model', mirror := mirror' },
-                s!"ok add level={level} n={residents mirror'} sync=1 ent={flag st.entryDead} readd={flag tomb}")
+                s!"ok add level={level} n={residents mirror'} sync=1 ent={flag st.entryDead} flushed={flag tomb}")
             else
               -- is there a tie that frees Go's order?  (after the internal flush of a
               -- re-add the pre-state lists are the flushed ones: use the post-state)
               let base := if tomb then mirror' else st.model
               let tie := tieFrom m base v' || tieAround m base mirror' touched id
               let st' := fin { st with model := mirror', mirror := mirror' }
-              if tie then (st', s!"ok add level={level} n={residents mirror'} tie=1 readd={flag tomb}")
+              if tie then (st', s!"ok add level={level} n={residents mirror'} tie=1 flushed={flag tomb}")
               else (st', s!"DIFF add-graph {firstDiff model' mirror' (if tomb then allIds model' mirror' else touched)}")
         | _, _ =>
           -- rejected add: nothing may change
@@ -291,7 +295,7 @@ def op (st : St) (toks : List String) : St × String :=
           let model' := flushTo st.model ent
           let reelected := ent != st.model.entry
           let st' := track { st with model := model', mirror := mirror' }
-          let st' := { st' with peak := residents mirror' }
+          let st' := { st' with peak := residents mirror', flushDropped := st'.flushDropped || !nothing }
           if sameGraph model' mirror' then
             (st', s!"ok flush n={residents mirror'} reelect={flag reelected} choices={choices.length} dropped={flag (!nothing)}")
           else
@@ -324,7 +328,7 @@ def op (st : St) (toks : List String) : St × String :=
       -- the invariant behind the partial theorems: in the complete regime (entry never
       -- soft-deleted, never more than 2M+1 vertices, efConstruction never below the size)
       -- layer 0 of the EXPORTED graph is the complete digraph on the live vertices
-      let regime := !st.over && !lowEf st && !st.entryDead
+      let regime := !st.over && !lowEf st
       if regime && !complete0B st.mirror then
         (st, s!"SPECFAIL small-complete layer 0 of the exported graph is not complete on the live vertices (live={liveIds.length})")
       else
